@@ -64,3 +64,28 @@ class lattice_maze_to_img:
     }
     result = T.GridT("float", [None, None])
     props = ["C20"]
+
+
+PATHFMT = T.RecT("PathFormat", path=T.GridT("int", [None, 2]), quiver_kwargs=T.Const(None), cmap=T.Const(None), fmt=T.ObjT("fmt"), line_width=T.ObjT("lw"),
+                 color=T.ObjT("color"), label=T.ObjT("label"))
+_PN = "path_format.path.shape[0]"
+
+
+@contract(PM, "MazePlot._plot_path")
+class plot_path:
+    """C20: `paths are drawn through the centres of exactly the cells they list, in order, with rows mapped to the vertical and columns to the horizontal
+    axis`: the line handed to Axes.plot has one point per listed cell, in the listed order, x from the column and y from the row (centre of the unit
+    square), and the two endpoint markers sit on the first and the last listed cell.  (The non-quiver branch; Axes.plot itself is matplotlib.)"""
+    params = dict(self=T.RecT("MazePlot", unit_length=T.Nat, ax=T.ObjT("ax")), path_format=PATHFMT)
+    requires = [f"{_PN} >= 1"]
+    ext_events = ("plot",)
+    ensures = {
+        "C20.path.calls": "n_calls('plot') == 3",
+        "C20.path.line.len": f"call_arg('plot', 0, 0).shape == ({_PN},) and call_arg('plot', 0, 1).shape == ({_PN},)",
+        "C20.path.line.x-from-column": f"forall(lambda k: call_arg('plot', 0, 0)[k] == self.unit_length * (path_format.path[k, 1] + 0.5), (0, {_PN}))",
+        "C20.path.line.y-from-row": f"forall(lambda k: call_arg('plot', 0, 1)[k] == self.unit_length * (path_format.path[k, 0] + 0.5), (0, {_PN}))",
+        "C20.path.start-marker": "call_arg('plot', 1, 0)[0] == self.unit_length * (path_format.path[0, 1] + 0.5) and call_arg('plot', 1, 1)[0] == self.unit_length * (path_format.path[0, 0] + 0.5)",
+        "C20.path.end-marker": f"call_arg('plot', 2, 0)[0] == self.unit_length * (path_format.path[{_PN} - 1, 1] + 0.5) and call_arg('plot', 2, 1)[0] == self.unit_length * (path_format.path[{_PN} - 1, 0] + 0.5)",
+    }
+    options = dict(no_concrete=True)
+    props = ["C20"]
